@@ -279,7 +279,7 @@ harness tables): parsing the text of an address gives the address back (IPv4-map
 as IPv4, so they come back as 4 bytes), and `ParseIP` only returns 4-byte or non-mapped 16-byte
 results after the code's `To4`/`To16` cascade. -/
 structure IPText.RT (c : IPText) : Prop where
-  parse4 : ∀ b : Bytes, b.length = 4 → c.parse (str4 b) = some b
+  parse4 : ∀ b : Bytes, b.length = 4 → c.parse (c.str4 b) = some b
   parse16 : ∀ b : Bytes, b.length = 16 → isV4Mapped b = false → c.parse (c.str16 b) = some b
   shape : ∀ (h : Text) (b : Bytes), c.parse h = some b →
     b.length = 4 ∨ (b.length = 16 ∧ isV4Mapped b = false)
